@@ -5,6 +5,7 @@
 #include <etl/_config/all.hpp>
 
 #include <etl/_concepts/integral.hpp>
+#include <etl/_limits/numeric_limits.hpp>
 #include <etl/_type_traits/is_constant_evaluated.hpp>
 #include <etl/_type_traits/is_same.hpp>
 
@@ -14,11 +15,16 @@ namespace detail {
 template <typename T>
 [[nodiscard]] constexpr auto rint_fallback(T arg) noexcept -> T
 {
-    if constexpr (sizeof(T) <= sizeof(long)) {
-        return static_cast<T>(static_cast<long>(arg));
-    } else {
-        return static_cast<T>(static_cast<long long>(arg));
+    // 2^(digits - 1): every value of this magnitude or above is integral
+    constexpr auto big = T(1) / etl::numeric_limits<T>::epsilon();
+    if (arg != arg || arg == T(0) || arg >= big || arg <= -big) {
+        return arg; // NaN, +-0, +-inf, integral
     }
+
+    // adding and subtracting 2^(digits - 1) rounds to nearest, ties to even
+    auto const mag = arg < T(0) ? -arg : arg;
+    auto const r   = (mag + big) - big;
+    return arg < T(0) ? -r : r;
 }
 
 template <typename T>
